@@ -4,7 +4,10 @@ Domain   generated programs, written to real source files, composed only from th
          (+ *args), with hard-coded keywords, with positional forwarding of an own parameter, super(Cls, self) non-immediate, cooperative
          multiple inheritance (diamonds), self.method(**kwargs), module function call, attribute store + use in a method / property,
          dict(k=.., **kwargs) / .update(**kwargs) / literal + update, kwargs.pop('name', default), cls(**kwargs) in a classmethod,
-         function -> function chains; hierarchy depth 1-5; random parameter names from a 16-name pool, types, defaults, required parameters.
+         function -> function chains, **kwargs handed to the construction of a class of *another* hierarchy (directly / through a
+         function, own parent given no kwargs), to a method / static method of a local instance, to a class method, and
+         if GLOBAL / elif not GLOBAL / else branches; hierarchy depth 1-5; random parameter names from a 26-name pool, types,
+         defaults, required parameters.
 Oracle   the interpreter: the generator keeps a model of every callable (accepted names, type, default); before the library is consulted the
          model is validated by *calling* the code (all modelled names accepted incl. members that consume stored kwargs; every other pool
          name rejected with TypeError).  Then: offered names == model names (soundness and completeness), hard-coded names not offered,
@@ -25,7 +28,7 @@ ID = "C13"
 LEVEL = "exploration"
 ENGINE = "hypothesis + generated source files"
 TECHNIQUE = "property-based testing over generated programs with an interpreter-validated model: the set, types and defaults of resolved parameters are compared with what calling the code accepts"
-LEVEL_TEXT = ("Thousands of generated class hierarchies and call chains per run (15 documented forwarding patterns, depth up to 5, single and "
+LEVEL_TEXT = ("Thousands of generated class hierarchies and call chains per run (20 documented forwarding patterns, depth up to 5, single and "
               "multiple inheritance); for every callable the model is first confirmed by the interpreter, then compared with the resolver's "
               "answer and with the options a parser creates. Exploration: the pattern grammar bounds it; undocumented patterns are not generated.")
 LEVEL_NOTE = ("Trusted: the interpreter (python itself decides what a call accepts). A callable whose model the interpreter does not confirm is "
@@ -37,7 +40,7 @@ ASSUMPTIONS = [
     "a 'legal call' of a class that stores **kwargs means constructing it and invoking every member that consumes the stored kwargs",
     "Base.__init__(self, **kw) with explicit self is undocumented and not generated",
 ]
-POOL = [f"p{i}" for i in range(16)]
+POOL = [f"p{i}" for i in range(26)]
 TYV = {"int": [0, 3, 9], "str": ["'a'", "'b'"], "float": [0.5, 2.0], "bool": [True, False]}
 SAMPLE = {"int": 1, "str": "s", "float": 2.5, "bool": False, None: 0}
 
@@ -252,6 +255,88 @@ class Gen:
             self.depth[nm] = d
         self.multi.add(c)
 
+    def outer(self, inner, base):
+        """class Outer(base) whose **kwargs go to the construction of a class of *another* hierarchy - directly or through a function -
+        while its own parent gets no kwargs (documented: 'when internally calling some function or instantiating a class')"""
+        rnd, t = self.rnd, self.tag
+        name = f"O{t}"
+        im = dict(self.models[inner])
+        ps = self.params(rnd.randint(0, 2))
+        m = {n: (ty, dv) for n, ty, dv in ps}
+        hard = {}
+        if rnd.chance(0.3) and im:
+            h = rnd.choice(sorted(im))
+            hard[h] = SAMPLE[im[h][0]]
+        hc = "".join(f"{h}={v!r}, " for h, v in hard.items())
+        via = rnd.choice(["direct", "function"])
+        if via == "function":
+            fps = self.params(rnd.randint(0, 1))
+            fs = self.sig(fps)
+            self.lines.append(f"def mk{t}({fs + ', ' if fs else ''}**kw):\n    return {inner}({hc}**kw)\n")
+            m.update({n: (ty, dv) for n, ty, dv in fps})
+            call = f"self._inner = mk{t}(**kwargs)"
+        else:
+            call = f"self._inner = {inner}({hc}**kwargs)"
+        m.update({k: v for k, v in im.items() if k not in hard})
+        body = []
+        if base:
+            req = ", ".join(f"{n}={SAMPLE[ty]!r}" for n, (ty, dv) in self.models[base].items() if dv is None)
+            body.append(f"super().__init__({req})")
+        body.append(call)
+        body += [f"self.{n} = {n}" for n, _, _ in ps]
+        s = self.sig(ps)
+        # members that make the inner object consume what it stored, so that the interpreter can confirm the model
+        extra = ("    def run(self):\n        r = getattr(self._inner, 'run', None)\n        if r:\n            r()\n"
+                 "        if isinstance(getattr(type(self._inner), 'data', None), property):\n            self._inner.data\n")
+        self.lines.append(f"class {name}({base or ''}):\n    def __init__(self{', ' + s if s else ''}, **kwargs):\n" + "\n".join("        " + b for b in body) + "\n" + extra)
+        self.models[name] = m
+        self.patterns[name] = self.patterns[inner] + ["call_cls:" + via] + (["hard"] if hard else [])
+        self.depth[name] = self.depth[inner] + 1
+        self.presets = getattr(self, "presets", {})
+        if self.presets.get(inner):
+            self.presets[name] = list(self.presets[inner])
+
+    def member_calls(self):
+        """functions whose **kwargs go to a method / static method / class method of a helper class"""
+        rnd, t = self.rnd, self.tag
+        nm = f"M{t}"
+        mem = {k: self.params(rnd.randint(1, 2)) for k in ("meth", "smeth", "cmeth")}
+
+        def ret(ps):
+            return f"return ({', '.join(n for n, _, _ in ps)}{',' if ps else ''})"
+
+        self.lines.append(
+            f"class {nm}:\n    def __init__(self):\n        pass\n"
+            f"    def meth(self, {self.sig(mem['meth'])}):\n        {ret(mem['meth'])}\n"
+            f"    @staticmethod\n    def smeth({self.sig(mem['smeth'])}):\n        {ret(mem['smeth'])}\n"
+            f"    @classmethod\n    def cmeth(cls, {self.sig(mem['cmeth'])}):\n        {ret(mem['cmeth'])}\n")
+        for kind, ps in mem.items():
+            fn = f"g{t}_{kind}"
+            own = self.params(rnd.randint(0, 1))
+            s = self.sig(own)
+            call = {"meth": f"inst = {nm}()\n    return inst.meth(**kwargs)", "smeth": f"inst = {nm}()\n    return inst.smeth(**kwargs)",
+                    "cmeth": f"return {nm}.cmeth(**kwargs)"}[kind]
+            self.lines.append(f"def {fn}({s + ', ' if s else ''}**kwargs):\n    {call}\n")
+            self.models[fn] = {n: (ty, dv) for n, ty, dv in own + ps}
+            self.patterns[fn] = ["fn_calls_" + kind]
+            self.depth[fn] = 2
+
+    def const_cond(self):
+        """if GLOBAL: f1(**kwargs) elif not GLOBAL2: f2(**kwargs) else: f3(**kwargs) - only the branch the constants select counts"""
+        rnd, t = self.rnd, self.tag
+        fns = [f"c{t}_{i}" for i in range(3)]
+        for f in fns:
+            self.strict_function(f)
+        fa, fb = rnd.chance(0.5), rnd.chance(0.5)
+        own = self.params(rnd.randint(0, 1))
+        s = self.sig(own)
+        self.lines.append(f"FLAGA{t} = {fa}\nFLAGB{t} = {fb}\n\ndef cc{t}({s + ', ' if s else ''}**kwargs):\n    if FLAGA{t}:\n        return {fns[0]}(**kwargs)\n"
+                          f"    elif not FLAGB{t}:\n        return {fns[1]}(**kwargs)\n    else:\n        return {fns[2]}(**kwargs)\n")
+        taken = fns[0] if fa else (fns[1] if not fb else fns[2])
+        self.models[f"cc{t}"] = {**{n: (ty, dv) for n, ty, dv in own}, **self.models[taken]}
+        self.patterns[f"cc{t}"] = ["const_cond", "strict_fn"]
+        self.depth[f"cc{t}"] = 2
+
     def program(self):
         depth = self.rnd.randint(1, 5)
         names = []
@@ -259,6 +344,22 @@ class Gen:
             nm = f"K{self.tag}_{d}"
             self.klass(nm, [names[-1]] if names else [])
             names.append(nm)
+        extra = self.rnd.randint(0, 9)
+        if extra <= 2 and len(self.used) <= 12:
+            # a second hierarchy, and a class of the first one's family that hands its **kwargs to it
+            inner = []
+            for d in range(self.rnd.randint(1, 3)):
+                nm = f"J{self.tag}_{d}"
+                self.klass(nm, [inner[-1]] if inner else [])
+                inner.append(nm)
+            self.outer(inner[-1], self.rnd.choice(names + [None]))
+            return "\n".join(self.lines)
+        if extra == 3 and len(self.used) <= 14:
+            self.member_calls()
+            return "\n".join(self.lines)
+        if extra == 4 and len(self.used) <= 14:
+            self.const_cond()
+            return "\n".join(self.lines)
         if self.rnd.chance(0.5):
             f0 = f"f{self.tag}_0"
             self.strict_function(f0)
